@@ -686,9 +686,10 @@ RULES = {
         ("comp1 -= & comp3 ;", "SubAssign :: sub_assign ( & mut comp1 , & comp3 ) ;"),
         ("match j0_sign * j1_sign {", "match Mul :: mul ( j0_sign , j1_sign ) {"),
     ]),
-    "R38": Rule("R38", "for (j, result) in [&r0, &comp1, &comp2, &comp3, &r4].iter().enumerate().rev() { BODY } -> five copies of BODY with (j, result) = (4, &&r4), (3, &&comp3), (2, &&comp2), (1, &&comp1), (0, &&r0) in that order  (std: enumerate().rev() over a 5-element array iterator yields the pairs from the last to the first)",
+    "R38": Rule("R38", "for (j, result) in [&r0, &comp1, &comp2, &comp3, &r4].iter().enumerate().rev() { BODY } -> { let arr__ = [&r0, &comp1, &comp2, &comp3, &r4]; let mut j__ = 5; while j__ > 0 { j__ -= 1; let j = j__; let result = &arr__[j__]; BODY } }  (std: enumerate().rev() over the 5-element array iterator yields (4, &a[4]) .. (0, &a[0]); `result` keeps its type &&BigInt)",
                 "for ( j , result ) in [ & r0 , & comp1 , & comp2 , & comp3 , & r4 ] . iter ( ) . enumerate ( ) . rev ( ) { $$body }",
-                "{ let j = 4 ; let result = & & r4 ; $$body } { let j = 3 ; let result = & & comp3 ; $$body } { let j = 2 ; let result = & & comp2 ; $$body } { let j = 1 ; let result = & & comp1 ; $$body } { let j = 0 ; let result = & & r0 ; $$body }"),
+                "{ let arr__ = [ & r0 , & comp1 , & comp2 , & comp3 , & r4 ] ; let mut j__ = 5 ; while j__ > 0 { j__ -= 1 ; let j = j__ ; let result = & arr__ [ j__ ] ; $$body } }"),
+    "R39": Rule("R39", "fn f(..) { PROLOGUE let (x, y) = E; REST } -> fn f(..) { PROLOGUE let (x, y) = E; loop { REST break; } }  (single-iteration loop: same behaviour; gives the verifier a cut point after the prologue; implemented by apply_cut_loop)", "<special>", "<special>"),
     "R16v": Rule("R16v", "Ord::cmp(&bit, &trailing_zeros) -> __u64_cmp(bit, trailing_zeros)  (std: total order on u64)",
                  "Ord :: cmp ( & bit , & trailing_zeros )", "__u64_cmp ( bit , trailing_zeros )"),
     "R0p": Rule("R0p", "crate::big_digit::BITS -> big_digit::BITS  (path of the same constant inside the unit's module)",
@@ -913,6 +914,39 @@ def apply_inline_closure(ss, log, where):
     log.append({"rule": "R27", "function": where, "from": "let mut %s = |%s| {..}; %d call statements" % (name, par, n),
                 "to": "binding dropped; each call -> { let %s = ARG; BODY }" % par})
     return out
+
+
+def apply_cut_loop(ss, log, where):
+    """R39: in `fn f(..) { PROLOGUE let (x, y) = E; REST }` the statement sequence REST (which contains no top-level
+    break/continue) is wrapped as `loop { REST break; }` -- a loop that runs exactly once. Behaviour is unchanged
+    (a `return` inside REST still returns from the function); the loop head gives the verifier a cut point, so REST
+    is checked once against an invariant instead of once per path through PROLOGUE."""
+    pat = ["let", "(", "x", ",", "y", ")", "="]
+    for i in range(len(ss) - len(pat)):
+        if ss[i:i + len(pat)] == pat:
+            break
+    else:
+        raise ExtractError("R39: no `let (x, y) =` in " + where)
+    # end of that statement: the `;` at depth 0
+    k = i
+    depth = 0
+    while k < len(ss):
+        if ss[k] in ("(", "[", "{"):
+            depth += 1
+        elif ss[k] in (")", "]", "}"):
+            depth -= 1
+        elif ss[k] == ";" and depth == 0:
+            break
+        k += 1
+    end = len(ss) - 1
+    if ss[end] != "}":
+        raise ExtractError("R39: function body does not end with `}`")
+    rest = ss[k + 1:end]
+    # no top-level break / continue in REST (inside nested loops they are fine; the source has none at all)
+    if "break" in rest or "continue" in rest:
+        raise ExtractError("R39: REST contains break/continue")
+    log.append({"rule": "R39", "function": where, "from": "let (x, y) = ..; REST (%d tokens)" % len(rest), "to": "let (x, y) = ..; loop { REST break; }"})
+    return ss[:k + 1] + ["loop", "{"] + rest + ["break", ";", "}"] + ["}"]
 
 
 def apply_mut_self(ss, log, where):
